@@ -1,6 +1,8 @@
 package masks
 
 import (
+	"strings"
+
 	"github.com/mennanov/fmutils"
 	"google.golang.org/grpc/codes"
 	"google.golang.org/grpc/status"
@@ -38,9 +40,10 @@ func (f *FieldUpdater) Validate(m proto.Message) error {
 
 		// are fields mentioned in the update mask actually writable?
 		if f.writableFields != nil {
-			common := f.fullMask()
-			if len(common.Paths) != len(f.updateMask.Paths) {
-				return status.Errorf(codes.InvalidArgument, "%v mentions read-only fields", f.updateMaskFieldName)
+			for _, path := range f.updateMask.Paths {
+				if !overlapsAny(path, f.writableFields.Paths) {
+					return status.Errorf(codes.InvalidArgument, "%v mentions read-only fields", f.updateMaskFieldName)
+				}
 			}
 		}
 	}
@@ -51,6 +54,16 @@ func (f *FieldUpdater) Validate(m proto.Message) error {
 	}
 
 	return nil
+}
+
+// overlapsAny returns true if path is one of paths, or is a sub-path or a parent of one of them.
+func overlapsAny(path string, paths []string) bool {
+	for _, p := range paths {
+		if path == p || strings.HasPrefix(path, p+".") || strings.HasPrefix(p, path+".") {
+			return true
+		}
+	}
+	return false
 }
 
 // Merge copies the values in src into dst based on the configured field masks.
